@@ -96,6 +96,26 @@ Theorem C03_count_star_counts_rows : forall f cells, cells <> [] ->
 Proof. exact count_star_counts_rows. Qed.
 Print Assumptions C03_count_star_counts_rows.
 
+(* an event without any column ({}): every input of the row is missing, yet it is a row of the batch.  A batch of n+1
+   such events has a result row - every field that reads a column reports the value of "no usable input" (result of the
+   initial state: sum avg min max NULL, count 0, ...), count( * ) reports n+1 -, and such an event anywhere in a
+   batch changes nothing for the fields that read a column (it is counted by count( * ): C03_count_star_counts_rows).
+   An implementation that drops the event before the group is created is told apart (families GE SE ME HE). *)
+Theorem C03_batch_of_empty_events : forall f m n, m <> MStar ->
+  batch f m (repeat Missing (S n)) = Some (result f (init f)) /\
+  batch ACount MStar (repeat Missing (S n)) = Some (RNum (qnat (S n))).
+Proof. exact batch_of_empty_events. Qed.
+Print Assumptions C03_batch_of_empty_events.
+Theorem C03_empty_event_in_batch : forall f m pre post, m <> MStar -> pre ++ post <> [] ->
+  batch f m (pre ++ Missing :: post) = batch f m (pre ++ post).
+Proof. exact empty_event_in_batch. Qed.
+Print Assumptions C03_empty_event_in_batch.
+Example C03_empty_events_witness :
+  batch ASum MCol [Missing; Missing; Missing] = Some RNull /\
+  batch ACount MCol [Missing; Missing; Missing] = Some (RNum 0) /\
+  batch ACount MStar [Cell (VInt 1); Missing; Cell (VFlt (5 # 2)); Missing] = Some (RNum 4).
+Proof. vm_compute. repeat split; reflexivity. Qed.
+
 Theorem C03_empty_group : forall vs, nums vs = [] ->
   spec ASum vs = RNull /\ spec AAvg vs = RNull /\ spec AMin vs = RNull /\ spec AMax vs = RNull.
 Proof. exact empty_group. Qed.
